@@ -157,6 +157,14 @@ class C08(Check):
         if stratum == 'S-probe':
             cfg['adaptive_probe'] = rng.random() < 0.6
             T = N * dt
+            if cfg['adaptive_probe'] and len(inputs) > 1 and rng.random() < 0.5:
+                # inputs of different lengths through get_run_func: each is laid out on its own time window (length * dt)
+                for inp in inputs[1:]:
+                    inp['N'] = N + rng.choice([7, 20, 3 * N])
+            if cfg['adaptive_probe'] and rng.random() < 0.3:
+                # history: the same arrays were compiled into the same model at another step size (another time window)
+                # earlier in this process, and nothing was cleared
+                cfg['prelude_dt_factor'] = rng.choice([0.25, 0.5, 4.0])
             cfg['probe_times'] = ([rng.uniform(0, T) for _ in range(12)] + [0.0, T, T * (N - 2) / (N - 1) if N > 2 else 0.0]
                                   if cfg['adaptive_probe'] else [rng.randint(0, N - 1) for _ in range(10)] + [0, N - 1])
         return {'spec': spec, 'cfg': cfg}
@@ -183,7 +191,7 @@ class C08(Check):
         import numpy as np
         out = {}
         for inp in cfg['inputs']:
-            N = cfg['N']
+            N = inp.get('N', cfg['N'])
             if inp['shape'] == 'cols':
                 a = np.array([[sample(inp['id'], k, c) for c in range(inp['ncols'])] for k in range(N)])
             else:
@@ -230,8 +238,10 @@ class C08(Check):
                 if k is not None:
                     tot += sample(iid, k, col)
                 else:
-                    grid = np.linspace(0.0, T_grid, N)
-                    tot += float(np.interp(t, grid, [sample(iid, j, col) for j in range(N)]))
+                    # (every input has its own grid: its own number of samples, one per step)
+                    N_i = by_id[iid].get('N', N)
+                    grid = np.linspace(0.0, N_i * dt if 'N' in by_id[iid] else T_grid, N_i)
+                    tot += float(np.interp(t, grid, [sample(iid, j, col) for j in range(N_i)]))
             return tot
         c = models.build(spec)
         fixed = cfg['solver'] in ('euler', 'heun')
@@ -273,6 +283,14 @@ class C08(Check):
             # function-level: call the function from get_run_func at chosen times
             adaptive = cfg['adaptive_probe']
             T_grid = N * dt
+            if cfg.get('prelude_dt_factor'):
+                try:
+                    models.build(spec).get_run_func('vf_pre', dt * cfg['prelude_dt_factor'], inputs=dict(inputs),
+                                                    vectorize=cfg['vectorize'], float_precision='float64', verbose=False,
+                                                    solver='scipy', file_name='pre_fn')
+                    bump('prelude_other_window')
+                except Exception:
+                    pass
             try:
                 f, args, anames, smap = c.get_run_func('vf', dt, inputs=inputs, vectorize=cfg['vectorize'],
                                                        float_precision='float64', verbose=False,
